@@ -17,7 +17,7 @@ import (
 
 type c10Case struct {
 	Probe *ref.Expr    `json:"probe"` // expression over key / value (or constants)
-	Form  string       `json:"form"`  // field | where | refuse
+	Form  string       `json:"form"`  // field | where | refuse | context-free
 	Lit   *ref.Expr    `json:"lit,omitempty"`
 	Store []store.Pair `json:"store"`
 	Mode  string       `json:"mode"`
@@ -272,6 +272,13 @@ func (c10) RunUnit(t core.Tier, u int, r *core.Reporter) {
 					run(c10Case{Probe: pr.e, Form: "where", Lit: lit, Store: in, Mode: cfg.mode, B: cfg.b})
 				}
 			}
+			// (d) every pair of the store, those outside the documented domain
+			// included (an index behind the end, text that is no number ...):
+			// whatever a probe yields on a pair, it yields it whichever pairs
+			// stand next to it and in either iteration mode
+			if cfg.mode == drv.Batch || cfg.b == 32 {
+				run(c10Case{Probe: pr.e, Form: "context-free", Store: ps, Mode: cfg.mode, B: cfg.b})
+			}
 			for _, p := range refuse {
 				run(c10Case{Probe: pr.e, Form: "refuse", Store: []store.Pair{p}, Mode: cfg.mode, B: cfg.b})
 				run(c10Case{Probe: substKV(pr.e, p.K, p.V), Form: "refuse", Store: []store.Pair{p}, Mode: cfg.mode, B: cfg.b})
@@ -364,6 +371,28 @@ func c10Judge(c *c10Case) (f *core.Failure, nontrivial bool, status, observed st
 			return mk("panic", "an error value", out.Describe()), true, "", observed
 		}
 		return nil, true, "refused", observed
+	case "context-free":
+		// each pair alone, row mode: the probe's value on that pair
+		var want []string
+		for _, p := range st0(c.Store) {
+			s1 := store.New([]store.Pair{p})
+			s1.NoLog = true
+			o1 := drv.Run(c.query(), s1, drv.Opt{Mode: drv.Row, B: 32})
+			if o1.Panic != "" {
+				return mk("panic", "rows or an error value", o1.Describe()), true, "", observed
+			}
+			if o1.Failed() || len(o1.Rows) != 1 {
+				return nil, false, "some-pair-fails-alone", observed
+			}
+			want = append(want, o1.Rows[0])
+		}
+		if out.Failed() {
+			return mk(out.Status(), fmt.Sprintf("each pair alone gives %v", want), out.Describe()), true, "", observed
+		}
+		if !drv.EqualRows(out.Rows, want) {
+			return mk("value-depends-on-neighbours-or-mode", fmt.Sprintf("each pair alone (row mode) gives %v", want), out.Describe()), true, "", observed
+		}
+		return nil, len(want) > 1, "ok", observed
 	case "field":
 		var want []string
 		for _, p := range st0(c.Store) {
